@@ -662,7 +662,13 @@ def run(ctx):
                 key, desc = "cli-exit-status", "embossc exit status %r" % res["rc"]
             elif rec is not None and rec["status"] == "rejected":
                 want = rec["formatted_nosrc"] if rec["stage"] == "front_end" else rec["formatted"]
-                if res["rc"] != 1 or err.strip("\n") != (want or "").strip("\n"):
+                unreadable = any(m["creator"] == "parse_module" for g in rec["messages"] for m in g)
+                if unreadable:
+                    # the notes quote the operating system's error text for each import directory
+                    ctx.count("cli:unreadable-import-not-compared")
+                    if res["rc"] != 1 or "Unable to read file." not in err:
+                        key, desc = "cli-differs-from-library", "embossc does not report the unreadable import the library reports"
+                elif res["rc"] != 1 or err.strip("\n") != (want or "").strip("\n"):
                     key, desc = "cli-differs-from-library", "embossc's diagnostics differ from error.format_errors of the in-process run"
             elif rec is not None and rec["status"] == "ok":
                 # the in-process run has compiled other modules before: anonymous fields are numbered differently (C17)
